@@ -612,7 +612,7 @@ fn valid_mutation(rng: &mut Rng, repr: &str, g: &G) -> Op {
 
 pub fn search_c20(seed: u64, ctx: &mut Ctx) -> Option<J> {
     let mut rng = Rng::new(seed);
-    for round in 0..2500usize {
+    for round in 0..10_000usize {
         let len_max = (1 + round / 40).min(12);
         let order_max = (1 + round / 25).min(6);
         for repr in ALL_REPRS {
